@@ -16,8 +16,9 @@
 EXTENDS Units
 
 MatchAt(w, i, n) == i + Len(n) - 1 <= Len(w) /\ SubSeq(w, i, i + Len(n) - 1) = n
-NamesAt(w, i) == {nm \in UNames : MatchAt(w, i, nm.w)}
-PrefixesAt(w, i) == {p \in UPrefixes : MatchAt(w, i, p.w)}
+\* (UNamesBy / UPrefixesBy: the same tables indexed by first character, so that TLC matches quickly)
+NamesAt(w, i) == IF i > Len(w) THEN {} ELSE {nm \in UNamesBy(w[i]) : MatchAt(w, i, nm.w)}
+PrefixesAt(w, i) == IF i > Len(w) THEN {} ELSE {p \in UPrefixesBy(w[i]) : MatchAt(w, i, p.w)}
 
 RECURSIVE ReadingsFrom(_, _)
 ReadingsFrom(w, i) ==
@@ -42,13 +43,13 @@ MaxPartial(w, i, S) == LET ls == {PartialLen(w, i, x.w, 0) : x \in S} IN
                        IF ls = {} THEN 0 ELSE CHOOSE m \in ls : \A y \in ls : y <= m
 \* one (prefix, unit) from position i: [ok, e, u, next, bt]
 ParseOne(w, i) ==
-  LET us == {nm \in CombinedUnitNames : MatchAt(w, i, nm.w)}
+  LET us == {nm \in NamesAt(w, i) : nm.w \notin SharedSpellings}
       ps == PrefixesAt(w, i)
       bestU == Longest(us)
       bestP == Longest(ps)
       lu == IF bestU = {} THEN 0 ELSE Len((CHOOSE x \in bestU : TRUE).w)
       lp == IF bestP = {} THEN 0 ELSE Len((CHOOSE x \in bestP : TRUE).w)
-      bt1 == MaxPartial(w, i, CombinedUnitNames \cup UPrefixes) > (IF lu > lp THEN lu ELSE lp) IN
+      bt1 == MaxPartial(w, i, {nm \in UNamesBy(w[i]) : nm.w \notin SharedSpellings} \cup UPrefixesBy(w[i])) > (IF lu > lp THEN lu ELSE lp) IN
   IF lu = 0 /\ lp = 0 THEN [ok |-> FALSE, e |-> 0, u |-> "", next |-> i, bt |-> bt1]
   ELSE IF lu > lp THEN LET nm == CHOOSE x \in bestU : TRUE IN [ok |-> TRUE, e |-> nm.bias, u |-> nm.u, next |-> i + lu, bt |-> bt1]
   ELSE LET p == CHOOSE x \in bestP : TRUE
@@ -58,7 +59,7 @@ ParseOne(w, i) ==
        THEN LET nm == CHOOSE x \in alone : TRUE IN [ok |-> TRUE, e |-> nm.bias, u |-> nm.u, next |-> j, bt |-> bt1]
        ELSE LET b2 == Longest(NamesAt(w, j))
                 l2 == IF b2 = {} THEN 0 ELSE Len((CHOOSE x \in b2 : TRUE).w)
-                bt2 == MaxPartial(w, j, UNames) > l2 IN
+                bt2 == j <= Len(w) /\ MaxPartial(w, j, UNamesBy(w[j])) > l2 IN
             IF b2 = {} THEN [ok |-> FALSE, e |-> 0, u |-> "", next |-> j, bt |-> bt1 \/ bt2]
             ELSE LET nm == CHOOSE x \in b2 : TRUE IN
                  [ok |-> TRUE, e |-> p.e + nm.bias, u |-> nm.u, next |-> j + Len(nm.w), bt |-> bt1 \/ bt2]
